@@ -46,8 +46,13 @@ def dict_plan(kinds, small, large):
 def dict_stages(kinds, quick_small, quick_large, binary="dict_rc", floors=None, nontrivial_floor=20, thorough_mult=12):
     def f(tier):
         mult = thorough_mult if tier == "thorough" else 1
-        return [{"name": "dict", "binary": binary, "plan": dict_plan(kinds, quick_small * mult, quick_large * mult),
-                 "label_floors": floors or {}, "nontrivial_floor": nontrivial_floor}]
+        st = [{"name": "dict", "binary": binary, "plan": dict_plan(kinds, quick_small * mult, quick_large * mult),
+               "label_floors": floors or {}, "nontrivial_floor": nontrivial_floor}]
+        if tier == "thorough":
+            import os
+            st.append({"name": "fuzz", "engine": "libfuzzer", "binary": "dict_fz", "seconds": int(os.environ.get("VERIF_FUZZ_SECONDS", "300")),
+                       "seed_strata": [t[0] for t in dict_plan(kinds, 1, 1)], "max_len": 700, "nontrivial_floor": 0})
+        return st
     return f
 
 
@@ -78,6 +83,10 @@ def comp_stages(plan_quick, floors=None, nontrivial_floor=50, thorough_mult=8, e
                "label_floors": floors or {}, "nontrivial_floor": nontrivial_floor}]
         if tier == "thorough" and extra_thorough:
             st += extra_thorough
+        if tier == "thorough":
+            import os
+            st.append({"name": "fuzz", "engine": "libfuzzer", "binary": "comp_fz", "seconds": int(os.environ.get("VERIF_FUZZ_SECONDS", "240")),
+                       "seed_strata": sorted({CP[c] * 16 + sub for (c, sub, _n, _s) in plan_quick}), "max_len": 700, "nontrivial_floor": 0})
         return st
     return f
 
